@@ -379,7 +379,7 @@ impl<'a> CaseRunner<'a> {
     let executed_now: BTreeSet<u32> = rec.events.iter().filter_map(|e| if let Ev::ExecStart { task } = e { Some(*task) } else { None }).collect();
     let solo = |t: u32| { let mut r = RefRun::new(&p, &rec.pre_world); r.eval(t); r };
     let pattern: Option<&'static str> = match (kind, cur, other, res) {
-      ("hidden-dependency", Some(c), Some(o), Some(r)) if msg.contains("is read by the current executing task") => {
+      ("hidden-dependency", Some(c), Some(o), Some(r)) if abort_in_read(&rec.events) => {
         let rr = solo(o);
         if !executed_now.contains(&o) && rr.writer_of[r as usize] != Some(o) { Some("K3-stale-write-edge-hidden-read") } else { let _ = c; None }
       }
@@ -573,15 +573,25 @@ impl<'a> CaseRunner<'a> {
   }
 }
 
+/// Kind of an abort, from the panic message (the only place where the public API exposes the diagnosis). Recognised
+/// by keyword, not by exact wording, so that re-worded messages do not turn into alarms.
 pub fn abort_kind(msg: &str) -> &'static str {
-  if msg.starts_with("Cyclic task dependency") { "cycle" }
-  else if msg.starts_with("Hidden dependency") { "hidden-dependency" }
-  else if msg.starts_with("Overlapping write") { "overlapping-write" }
-  else if msg.contains(crate::cell::INJECTED_PANIC_MARKER) { "injected-panic" }
-  else if msg.contains(crate::prog::USER_PANIC_MARKER) { "user-panic" }
-  else if msg.contains(crate::cell::STEP_BOUND_MARKER) { "step-bound" }
-  else if msg.starts_with("BUG") || msg.contains("/repo/") { "internal" }
+  if msg.contains(crate::cell::INJECTED_PANIC_MARKER) { return "injected-panic"; }
+  if msg.contains(crate::prog::USER_PANIC_MARKER) { return "user-panic"; }
+  if msg.contains(crate::cell::STEP_BOUND_MARKER) { return "step-bound"; }
+  if msg.starts_with("BUG") { return "internal"; }
+  // the diagnosis is named before the first quoted key
+  let head: String = msg.split('\'').next().unwrap_or(msg).to_ascii_lowercase();
+  if head.contains("cyclic") || head.contains("cycle") { "cycle" }
+  else if head.contains("hidden dependency") || head.contains("hidden-dependency") || head.contains("hidden") { "hidden-dependency" }
+  else if head.contains("overlapping write") || head.contains("overlapping") || head.contains("overlap") { "overlapping-write" }
+  else if msg.contains("/repo/") { "internal" }
   else { "other" }
+}
+
+/// Whether the access that was being made when the session aborted was a read (the innermost pending call).
+pub fn abort_in_read(evs: &[Ev]) -> bool {
+  matches!(evs.iter().rev().find(|e| matches!(e, Ev::WriteCall { .. } | Ev::ReadCall { .. } | Ev::ReqCall { .. })), Some(Ev::ReadCall { .. }))
 }
 
 pub fn ref_outputs(p: &Program, state: &[Option<u32>], roots: &[u32]) -> (Vec<Option<u32>>, Option<crate::refm::RefViol>) {
